@@ -43,6 +43,18 @@ pub open spec fn async_victim_ok<R>(p: EvictionPolicy, m: Map<String, (R, u64, u
     }
 }
 
+pub open spec fn a_entry_mem<R: MemoryEstimator>() -> spec_fn((R, u64, u64)) -> nat { |e: (R, u64, u64)| e.0.mem() }
+
+/// C05: total size of the cached values (async store)
+pub open spec fn a_mem_total<R: MemoryEstimator>(m: Map<String, (R, u64, u64)>, q: Seq<String>) -> nat { total_q(m, q, a_entry_mem::<R>()) }
+
+/// R4: `cache.iter().map(|entry| entry.value().0.estimate_memory()).sum()` -- assumed contract: the sum of the estimates
+/// over every stored entry, i.e. along any duplicate-free enumeration of the keys (for totals that fit usize).
+#[verifier::external_body]
+pub fn sum_estimates_a<R: MemoryEstimator>(m: &HashMap<String, (R, u64, u64)>) -> (r: usize)
+    ensures forall|q: Seq<String>| #[trigger] wf(m@, q) && a_mem_total(m@, q) <= usize::MAX ==> r == a_mem_total(m@, q)
+{ unimplemented!() }
+
 /// recency refresh happens on a hit iff the policy tracks recency and some bound is configured
 pub open spec fn a_touches(p: EvictionPolicy, limit: Option<usize>, max_memory: Option<usize>) -> bool {
     (limit is Some || max_memory is Some) && hit_touches(p)
@@ -90,6 +102,7 @@ EVICT_REQ = [('wf', 'wf(old(cache)@, old(order)@)'),
 EVICT_ENS = [
     ('post_wf', ['C04'], 'wf(final(cache)@, final(order)@)'),
     ('survivors_unchanged', ['C01'], 'forall|x: String| #[trigger] final(cache)@.contains_key(x) ==> old(cache)@.contains_key(x) && final(cache)@[x] == old(cache)@[x]'),
+    ('queue_shrinks', ['C04', 'C07'], 'final(order)@.len() <= old(order)@.len() && forall|x: String| #[trigger] final(order)@.contains(x) ==> old(order)@.contains(x)'),
     ('no_overflow_noop', ['C04', 'C03'], '(limit is None || old(cache)@.len() < limit->Some_0) ==> final(cache)@ == old(cache)@ && final(order)@ == old(order)@'),
     ('overflow_one_victim', ['C04', 'C07', 'C08'], '(limit is Some && old(cache)@.len() >= limit->Some_0) ==> '
      'exists|v: String| async_victim_ok(policy, old(cache)@, old(order)@, v) && final(cache)@ == #[trigger] old(cache)@.remove(v) && final(order)@ == rm1(old(order)@, v)'),
@@ -112,6 +125,40 @@ INSERT_ENS = [
     ('bound', ['C04'], '(old(self).limit is Some && %s.len() <= old(self).limit->Some_0) ==> %s.len() <= old(self).limit->Some_0' % (M0, M1)),
 ]
 INSERT_REQ = WF + [('counters_unsaturated', 'a_freq_ok(old(self).cache@)'), ('limit_positive', 'old(self).limit is Some ==> old(self).limit->Some_0 >= 1')]
+
+OVERSIZE = '(old(self).max_memory is Some && value.mem() > old(self).max_memory->Some_0)'
+SA_TOTAL = 'a_mem_total(%s, %s)' % (MA, QA)
+MEMFITS = '(old(self).max_memory is None || %s + value.mem() <= old(self).max_memory->Some_0)' % SA_TOTAL
+INSERTM_REQ = INSERT_REQ + [('no_usize_overflow', 'a_mem_total(%s, old(self).order@) + value.mem() <= usize::MAX' % M0)]
+INSERTM_ENS = [
+    CFG_FRAME,
+    ('post_wf', ['C04', 'C05', 'C13'], 'wf(%s, final(self).order@)' % M1),
+    ('stats_frame', ['C15'], 'final(self).stats == old(self).stats'),
+    ('oversize_not_cached', ['C05'], '%s ==> %s == %s && final(self).order@ == %s' % (OVERSIZE, M1, MA, QA)),
+    ('total_le_max', ['C05'], '(old(self).max_memory is Some && !%s) ==> a_mem_total(%s, final(self).order@) <= old(self).max_memory->Some_0' % (OVERSIZE, M1)),
+    ('last_store_wins', ['C01', 'C11'], '!%s ==> %s.contains_key(%s) && %s[%s] == %s' % (OVERSIZE, M1, K, M1, K, NEW)),
+    ('fits_no_eviction', ['C05', 'C03', 'C04'], '(!%s && %s && (old(self).limit is None || %s.len() < old(self).limit->Some_0)) ==> '
+     '%s == %s.insert(%s, %s) && final(self).order@ == touch(old(self).order@, %s)' % (OVERSIZE, MEMFITS, MA, M1, M0, K, NEW, K)),
+    ('survivors_unchanged', ['C01', 'C05'], 'forall|x: String| x != %s && #[trigger] %s.contains_key(x) ==> %s.contains_key(x) && %s[x] == %s[x]' % (K, M1, M0, M1, M0)),
+    ('fifo_lru_oldest_first', ['C07'], '(!%s && (old(self).policy is FIFO || old(self).policy is LRU)) ==> is_suffix(final(self).order@.drop_last(), %s) && final(self).order@.last() == %s' % (OVERSIZE, QA, K)),
+    ('bound', ['C04'], '(old(self).limit is Some && %s.len() <= old(self).limit->Some_0) ==> %s.len() <= old(self).limit->Some_0' % (M0, M1)),
+]
+MEMLOOP = dict(
+    invariant=[
+        ('wf', 'wf(self.cache@, order@)'),
+        ('cfg', 'self.limit == old(self).limit && self.max_memory == old(self).max_memory && self.policy == old(self).policy && self.ttl == old(self).ttl '
+                '&& self.frequency_weight == old(self).frequency_weight && self.stats == old(self).stats && self.max_memory == Some(max_mem) && value_size == value.mem() && value_size <= max_mem'),
+        ('counters', 'a_freq_ok(self.cache@)'),
+        ('pre_facts', 'wf(%s, %s) && %s + value.mem() <= usize::MAX' % (MA, QA, SA_TOTAL)),
+        ('submap', 'forall|x: String| #[trigger] self.cache@.contains_key(x) ==> x != %s && %s.contains_key(x) && self.cache@[x] == %s[x]' % (K, M0, M0)),
+        ('key_absent', '!order@.contains(%s)' % K),
+        ('total_bounded', 'a_mem_total(self.cache@, order@) <= %s' % SA_TOTAL),
+        ('no_needless', '%s + value.mem() <= max_mem ==> self.cache@ == %s && order@ == %s' % (SA_TOTAL, MA, QA)),
+        ('oldest_first', '(self.policy is FIFO || self.policy is LRU) ==> is_suffix(order@, %s)' % QA),
+        ('shrinks', 'order@.len() <= %s.len()' % QA),
+    ],
+    ensures=[('fits', 'a_mem_total(self.cache@, order@) + value.mem() <= max_mem')],
+    decreases='order@.len()')
 
 UNIT = dict(
     name='async_cache',
@@ -142,5 +189,6 @@ UNIT = dict(
                ensures=[('front_evicted', 'evicted_a(old(cache)@, old(order)@, cache@, order@, old(order)@[0])')],
                decreases='order@.len()')}),
         fn('insert', rules=R4 + R5, requires=INSERT_REQ, ensures=INSERT_ENS),
+        fn('insert_with_memory', impl=IMPL_MEM, rules=R4 + R5, requires=INSERTM_REQ, ensures=INSERTM_ENS, loops={0: MEMLOOP}),
     ],
 )
